@@ -193,6 +193,10 @@ def run_impl(c):
             vec.extend(_py(v) for v in items)
             return vec
         a, b = mk(c["l1"], c["u1"], c.get("t1", "TInt")), mk(c["l2"], c["u2"], c.get("t2", "TInt"))
+        # == compares element lists and units: other extended properties take no part in it
+        for o, x in zip((a, b), c.get("xp", (None, None))):
+            if x is not None:
+                o.extended_properties["verif_note"] = x
         eq, ne = a == b, a != b
         if bool(eq) == bool(ne):
             raise RuntimeError("== and != agree")
@@ -446,6 +450,8 @@ def gen_cases(rng, tier):
                 l2[j] = ["b", bool(l2[j][1])]
         u1 = rng.choice(["", "V", "A"]); u2 = u1 if rng.random() < 0.7 else rng.choice(["", "V", "A"])
         cases.append({"k": "eq", "l1": l1, "u1": u1, "l2": l2, "u2": u2})
+        if rng.random() < 0.4:
+            cases[-1]["xp"] = rng.choice([[1, 2], [1, None], [None, "x"], [3, 3]])
         # the same numbers held by vectors of another value type (1 == 1.0 == True), and empty vectors of two types
         conv = rng.choice(["f", "b", "same"])
         l3 = [(["f", 2 * v[1]] if conv == "f" and v[0] == "i" and abs(v[1]) < 10**6 else ["b", bool(v[1])] if conv == "b" and v[0] == "i" and v[1] in (0, 1) else v)
